@@ -1,7 +1,8 @@
 /-
 Model of pkg/encoding/fixedn: `Fixed8.String` (fixed8.go:21-41, after the fix "print
 Fixed8(math.MinInt64) correctly"), `Fixed8FromString` (l.71-77), `ToString`/`FromString`
-(decimal.go:38-83, after the fix "keep the sign of decimals between -1 and 0").
+(decimal.go:38-83, after the fixes "keep the sign of decimals between -1 and 0" and "format decimal
+fractions that do not fit uint64").
 Strings are ASCII byte lists. `big.Int.SetString(s, 10)` is modelled by its grammar
 (`[+-]?[0-9]+`, whole string), `big.Int.String()` / `strconv.FormatUint` by decimal digits.
 Core Lean only.
@@ -85,18 +86,8 @@ def wrapInt64 (x : Int) : Int :=
 /-- `Fixed8FromString` (fixed8.go:71-77). -/
 def fixed8FromString (s : Bytes) : Option Int := (decFromString s 8).map wrapInt64
 
-/-- the loop `for ; frac%10 == 0; frac /= 10 { trimmed++ }` (it does not terminate for 0: fuel). -/
-def trim10 : Nat → Nat → Nat × Nat
-  | 0, f => (f, 0)
-  | fuel + 1, f =>
-    if f % 10 == 0 then let (g, t) := trim10 fuel (f / 10); (g, t + 1) else (f, 0)
-
-/-- `fmt.Sprintf("%0<w>d", n)`. -/
-def padDec (w n : Nat) : Bytes :=
-  let s := natDec n
-  List.replicate (w - s.length) chZero ++ s
-
-/-- `ToString` (decimal.go:38-56). For `precision ≤ 19` the fraction fits a uint64. -/
+/-- `ToString` (decimal.go:38-53, after the fix "format decimal fractions that do not fit uint64"):
+the fraction is the decimal text of `|fp|`, left-padded with zeros to `precision`, right-trimmed. -/
 def decToString (bi : Int) (precision : Nat) : Bytes :=
   let m : Int := (10 : Int) ^ precision
   let dp := bi.tdiv m
@@ -105,9 +96,8 @@ def decToString (bi : Int) (precision : Nat) : Bytes :=
   if fp = 0 then s
   else
     let s := if fp < 0 ∧ dp = 0 then chMinus :: s else s
-    let frac := fp.natAbs % 2 ^ 64
-    let (frac', trimmed) := trim10 64 frac
-    s ++ [chDot] ++ padDec (precision - trimmed) frac'
+    let frac := natDec fp.natAbs
+    s ++ [chDot] ++ trimRight0 (List.replicate (precision - frac.length) chZero ++ frac)
 
 end NeoModel.Codec
 
